@@ -12,6 +12,7 @@ pub mod c09;
 pub mod c10;
 pub mod c11;
 pub mod c12;
+pub mod c17;
 pub mod c18;
 
 pub fn run(ctx: &mut Ctx) {
@@ -30,6 +31,7 @@ pub fn run(ctx: &mut Ctx) {
         "C10" => c10::run_check(ctx),
         "C11" => c11::run_check(ctx),
         "C12" => c12::run_check12(ctx),
+        "C17" => c17::run_check(ctx),
         "C18" => c18::run_check(ctx),
         "C13" => c12::run_check13(ctx),
         other => {
@@ -53,6 +55,7 @@ pub fn replay(ctx: &mut Ctx, case: &serde_json::Value) {
         "C10" => c10::replay(ctx, case),
         "C11" => c11::replay(ctx, case),
         "C12" | "C13" => c12::replay(ctx, case),
+        "C17" => c17::replay(ctx, case),
         "C18" => c18::replay(ctx, case),
         other => {
             eprintln!("unknown property {}", other);
